@@ -218,7 +218,7 @@ static void push_indexed_lvalue (int reverse) {
         case T_BUFFER:
           {
             if (reverse)
-              ind = lv->u.buf->size - ind;
+              ind = LPC_INT_SUB (lv->u.buf->size, ind);
             if (ind >= (int)lv->u.buf->size || ind < 0)
               error ("*Buffer index out of bounds.");
             sp->type = T_LVALUE;
@@ -231,7 +231,7 @@ static void push_indexed_lvalue (int reverse) {
         case T_ARRAY:
           {
             if (reverse)
-              ind = lv->u.arr->size - ind;
+              ind = LPC_INT_SUB (lv->u.arr->size, ind);
             if (ind >= lv->u.arr->size || ind < 0)
               error ("*Array index out of bounds.");
             sp->type = T_LVALUE;
@@ -281,7 +281,7 @@ static void push_indexed_lvalue (int reverse) {
         case T_BUFFER:
           {
             if (reverse)
-              ind = sp->u.buf->size - ind;
+              ind = LPC_INT_SUB (sp->u.buf->size, ind);
             if (ind >= (int)sp->u.buf->size || ind < 0)
               error ("*Buffer index out of bounds.");
             sp->u.buf->ref--;
@@ -295,7 +295,7 @@ static void push_indexed_lvalue (int reverse) {
         case T_ARRAY:
           {
             if (reverse)
-              ind = sp->u.arr->size - ind;
+              ind = LPC_INT_SUB (sp->u.arr->size, ind);
             if (ind >= sp->u.arr->size || ind < 0)
               error ("*Array index out of bounds.");
             sp->u.arr->ref--;
